@@ -1,0 +1,96 @@
+//go:build verif
+
+package standard
+
+import (
+	"context"
+
+	apiv1 "github.com/attestantio/go-builder-client/api/v1"
+	builderspec "github.com/attestantio/go-builder-client/spec"
+	"github.com/attestantio/go-eth2-client/spec/bellatrix"
+	"github.com/attestantio/go-eth2-client/spec/phase0"
+	"github.com/attestantio/vouch/services/accountmanager"
+	"github.com/attestantio/vouch/services/blockrelay"
+	"github.com/attestantio/vouch/services/chaintime"
+	"github.com/attestantio/vouch/services/signer"
+	"github.com/attestantio/vouch/strategies/builderbid"
+	"github.com/rs/zerolog"
+	zerologger "github.com/rs/zerolog/log"
+	majordomo "github.com/wealdtech/go-majordomo"
+	"golang.org/x/sync/semaphore"
+)
+
+// VerifC12Params are the collaborators of a Service built by NewForVerifC12.
+type VerifC12Params struct {
+	LogLevel                    zerolog.Level
+	Majordomo                   majordomo.Service
+	ChainTime                   chaintime.Service
+	ConfigURL                   string
+	FallbackFeeRecipient        bellatrix.ExecutionAddress
+	FallbackGasLimit            uint64
+	AccountsProvider            accountmanager.AccountsProvider
+	ValidatingAccountsProvider  accountmanager.ValidatingAccountsProvider
+	ValidatorRegistrationSigner signer.ValidatorRegistrationSigner
+	BuilderBidProvider          builderbid.Provider
+	// InitialExecutionConfig is the execution configuration the service starts with
+	// (nil, or what New installs: an empty version 2 configuration).
+	InitialExecutionConfig blockrelay.ExecutionConfigurator
+}
+
+// NewForVerifC12 builds a Service without the REST daemon, the scheduler jobs, the metrics and the
+// initial configuration fetch, so that configuration refreshes, proposer configuration lookups,
+// auctions and registration rounds can be driven one by one against a scripted configuration source.
+// Only compiled with the "verif" build tag.
+func NewForVerifC12(p *VerifC12Params) *Service {
+	log := zerologger.With().Str("service", "blockrelay").Str("impl", "standard").Logger().Level(p.LogLevel)
+
+	return &Service{
+		log:                          log,
+		majordomo:                    p.Majordomo,
+		chainTime:                    p.ChainTime,
+		configURL:                    p.ConfigURL,
+		fallbackFeeRecipient:         p.FallbackFeeRecipient,
+		fallbackGasLimit:             p.FallbackGasLimit,
+		accountsProvider:             p.AccountsProvider,
+		validatingAccountsProvider:   p.ValidatingAccountsProvider,
+		validatorRegistrationSigner:  p.ValidatorRegistrationSigner,
+		latestValidatorRegistrations: make(map[phase0.BLSPubKey]phase0.Root),
+		signedValidatorRegistrations: make(map[phase0.Root]*apiv1.SignedValidatorRegistration),
+		builderBidsCache:             make(map[string]map[string]*builderspec.VersionedSignedBuilderBid),
+		executionConfig:              p.InitialExecutionConfig,
+		activitySem:                  semaphore.NewWeighted(1),
+		builderBidProvider:           p.BuilderBidProvider,
+		builderConfigs:               make(map[phase0.BLSPubKey]*blockrelay.BuilderConfig),
+		controlledValidators:         make(map[phase0.BLSPubKey]struct{}),
+	}
+}
+
+// VerifC12FetchExecutionConfig runs one periodic configuration refresh.
+func (s *Service) VerifC12FetchExecutionConfig(ctx context.Context) {
+	s.fetchExecutionConfig(ctx)
+}
+
+// VerifC12SubmitValidatorRegistrations runs one periodic registration round.
+func (s *Service) VerifC12SubmitValidatorRegistrations(ctx context.Context) {
+	s.submitValidatorRegistrations(ctx)
+}
+
+// VerifC12TryLockExecutionConfig reports whether the execution configuration lock could be taken
+// for writing right now (nobody holds it); the lock is released again at once.
+func (s *Service) VerifC12TryLockExecutionConfig() bool {
+	if !s.executionConfigMu.TryLock() {
+		return false
+	}
+	s.executionConfigMu.Unlock()
+	return true
+}
+
+// VerifC12TryRLockExecutionConfig reports whether the execution configuration lock could be taken
+// for reading right now (no writer holds it or waits for it); the lock is released again at once.
+func (s *Service) VerifC12TryRLockExecutionConfig() bool {
+	if !s.executionConfigMu.TryRLock() {
+		return false
+	}
+	s.executionConfigMu.RUnlock()
+	return true
+}
